@@ -373,6 +373,24 @@ def shard(ctx):
                         ctx.violation("root-vs-exit", "validate -p: root %s (library root %s) exit %s" % (r3s, root, r3["code"]), case)
             elif core.crash_signature(r3):
                 ctx.inconclusive("crash-in-cli")
+            # a payload with two rules entries (the generated one and one that always passes), in both orders: one record per entry, exit 19 iff
+            # some root is FAIL
+            for order_ in (0, 1):
+                entries = [text, "rule zz_always_pass {\n    this exists\n}\n"]
+                if order_:
+                    entries.reverse()
+                rp_ = ctx.w.run({"k": "cli", "argv": ["validate", "--payload", "-p", "-S", "none"], "stdin": json.dumps({"rules": entries, "data": [docs]})})
+                if rp_.get("r") == "ok":
+                    proots = re.findall(r'"FileCheck":\s*\{[^}]*?"status":\s*"(\w+)"', rp_.get("out", ""))
+                    ctx.res.counts["payload_roots_vs_exit"] += 1
+                    if len(proots) == 2:
+                        wantp = 19 if "FAIL" in proots else 0
+                        ctx.res.distinct.add(("payload-roots", tuple(proots), rp_["code"]))
+                        if rp_["code"] != wantp:
+                            ctx.violation("roots-vs-exit:payload-several-rules-entries", "validate --payload -p with two rules entries: root statuses %s but exit %s" % (proots, rp_["code"]),
+                                          {"kind": "payload", "rules": entries, "data": docs})
+                elif core.crash_signature(rp_):
+                    ctx.inconclusive("crash-in-cli")
             # several data files in one run: one record tree per file, the exit code follows from ALL root statuses (19 iff some root is FAIL)
             if t % 3 == 0:
                 others = [json.dumps(gen.gen_doc(rng)), json.dumps({"zz_unrelated": 1})]
@@ -416,6 +434,10 @@ def shard(ctx):
 
 
 def replay(case, w):
+    if case["kind"] == "payload":
+        rp_ = w.run({"k": "cli", "argv": ["validate", "--payload", "-p", "-S", "none"], "stdin": json.dumps({"rules": case["rules"], "data": [case["data"]]})})
+        proots = re.findall(r'"FileCheck":\s*\{[^}]*?"status":\s*"(\w+)"', rp_.get("out", ""))
+        return rp_.get("code") == (19 if "FAIL" in proots else 0), "roots %s exit %s" % (proots, rp_.get("code"))
     if case["kind"] == "multi":
         r4 = w.run({"k": "cli", "argv": ["validate", "-r", "{S}/r.guard", "-d", "{S}/data", "-p", "-S", "none"], "files": case["files"]})
         roots = re.findall(r'"FileCheck":\s*\{[^}]*?"status":\s*"(\w+)"', r4.get("out", ""))
